@@ -17,6 +17,7 @@
 #include <stdio.h> // snprintf
 #include <string>
 #include <type_traits>
+#include <vector>
 
 #include <jsoncons/config/compiler_support.hpp>
 #include <jsoncons/config/jsoncons_config.hpp>
@@ -287,6 +288,49 @@ void dump_buffer(const char *buffer, std::size_t length, char decimal_point, Res
     }
 }
 
+namespace detail {
+
+    inline int snprintf_double(char* buffer, std::size_t size, char conversion, int precision, double val)
+    {
+        switch (conversion)
+        {
+            case 'f':
+                return snprintf(buffer, size, "%1.*f", precision, val);
+            case 'e':
+                return snprintf(buffer, size, "%1.*e", precision, val);
+            default:
+                return snprintf(buffer, size, "%1.*g", precision, val);
+        }
+    }
+
+    // Formats val into a stack buffer; snprintf returns the length the text needs, so when it
+    // does not fit the text is formatted again into a heap buffer of that length.
+    template <typename Result>
+    bool dump_double(char conversion, int precision, double val, char decimal_point, Result& result)
+    {
+        char buffer[200];
+        int length = snprintf_double(buffer, sizeof(buffer), conversion, precision, val);
+        if (length < 0)
+        {
+            return false;
+        }
+        if (static_cast<std::size_t>(length) < sizeof(buffer))
+        {
+            dump_buffer(buffer, static_cast<std::size_t>(length), decimal_point, result);
+            return true;
+        }
+        std::vector<char> big(static_cast<std::size_t>(length) + 1);
+        int length2 = snprintf_double(big.data(), big.size(), conversion, precision, val);
+        if (length2 < 0 || static_cast<std::size_t>(length2) >= big.size())
+        {
+            return false;
+        }
+        dump_buffer(big.data(), static_cast<std::size_t>(length2), decimal_point, result);
+        return true;
+    }
+
+} // namespace detail
+
 template <typename Result>
 bool dtoa_scientific(double val, char decimal_point, Result& result)
 {
@@ -413,6 +457,10 @@ bool dtoa_fixed(double val, char decimal_point, Result& result, std::false_type)
     {
         return false;
     }
+    if (static_cast<std::size_t>(length) >= sizeof(buffer))
+    {
+        return detail::dump_double('f', std::numeric_limits<double>::max_digits10, val, decimal_point, result);
+    }
     double x{0};
     auto res = decstr_to_double(buffer, length, x);
     if (res.ec == std::errc::invalid_argument)
@@ -503,21 +551,16 @@ public:
     {
         std::size_t count = 0;
 
-        char number_buffer[200];
-        int length = 0;
-
         switch (float_format_)
         {
         case float_chars_format::fixed:
             {
                 if (precision_ > 0)
                 {
-                    length = snprintf(number_buffer, sizeof(number_buffer), "%1.*f", precision_, val);
-                    if (length < 0)
+                    if (!detail::dump_double('f', precision_, val, decimal_point_, result))
                     {
                         JSONCONS_THROW(json_runtime_error<std::invalid_argument>("write_double failed."));
                     }
-                    dump_buffer(number_buffer, length, decimal_point_, result);
                 }
                 else
                 {
@@ -532,12 +575,10 @@ public:
             {
                 if (precision_ > 0)
                 {
-                    length = snprintf(number_buffer, sizeof(number_buffer), "%1.*e", precision_, val);
-                    if (length < 0)
+                    if (!detail::dump_double('e', precision_, val, decimal_point_, result))
                     {
                         JSONCONS_THROW(json_runtime_error<std::invalid_argument>("write_double failed."));
                     }
-                    dump_buffer(number_buffer, length, decimal_point_, result);
                 }
                 else
                 {
@@ -552,12 +593,10 @@ public:
             {
                 if (precision_ > 0)
                 {
-                    length = snprintf(number_buffer, sizeof(number_buffer), "%1.*g", precision_, val);
-                    if (length < 0)
+                    if (!detail::dump_double('g', precision_, val, decimal_point_, result))
                     {
                         JSONCONS_THROW(json_runtime_error<std::invalid_argument>("write_double failed."));
                     }
-                    dump_buffer(number_buffer, length, decimal_point_, result);
                 }
                 else
                 {
